@@ -9,10 +9,21 @@ Proof. exact parse_tree_py_eq_rs_lemma. Qed.
 Print Assumptions parse_tree_py_eq_rs.
 
 (* tree ordering: key_entry's bytes comparison and cmp_with_suffix decide every
-   pair of entries alike (names without NUL and '/', as in any valid tree) *)
-Theorem tree_order_py_eq_rs : forall a b, plain (fst a) -> plain (fst b) -> py_tree_cmp a b = rs_tree_cmp a b.
+   pair of entries alike, whatever bytes the names hold *)
+Theorem tree_order_py_eq_rs : forall a b, py_tree_cmp a b = rs_tree_cmp a b.
 Proof. exact tree_order_py_eq_rs_lemma. Qed.
 Print Assumptions tree_order_py_eq_rs.
+
+(* the comparator that looks at one byte past the common prefix (what the crate
+   had) agrees only on names without NUL and '/', and differs outside them *)
+Theorem tree_order_one_byte_lookahead_partial : forall a b, plain (fst a) -> plain (fst b) ->
+  py_tree_cmp a b = rs_tree_cmp_one_byte a b.
+Proof. exact tree_order_one_byte_lemma. Qed.
+Print Assumptions tree_order_one_byte_lookahead_partial.
+
+Theorem tree_order_one_byte_lookahead_refuted : exists a b, py_tree_cmp a b <> rs_tree_cmp_one_byte a b.
+Proof. exact one_byte_differs. Qed.
+Print Assumptions tree_order_one_byte_lookahead_refuted.
 
 (* delta application: identical results on every delta (stated in C03 as well) *)
 Theorem apply_delta_py_eq_rs : forall src delta,
@@ -23,7 +34,7 @@ Print Assumptions apply_delta_py_eq_rs.
 
 (* index bisection: same answer, and no i64 overflow, for all tables and index ranges below 2^62 *)
 Theorem bisect_py_eq_rs : forall fuel name sha s e,
-  (zlen sha = 20 \/ zlen sha = 32) -> 0 <= s -> e < 4611686018427387904 ->
+  0 <= s -> e < 4611686018427387904 ->
   py_bisect_top fuel name sha s e = rs_bisect_top fuel name sha s e.
 Proof. exact bisect_top_py_eq_rs. Qed.
 Print Assumptions bisect_py_eq_rs.
